@@ -303,7 +303,9 @@ class CopulaCouplingState(FunctionContract):
     those of the joint measure -- which is what makes the coarse path follow the previous level's law."""
     prop = "C03"
     target = CL + "CouplingLevyCopulaSimulation.__coupling_state"
-    cases = ("even-even", "odd-odd", "even-odd", "odd-even")
+    # "...|after an earlier jump": the simulation object (built by its real constructor) has already coupled one jump of
+    # mixed parity -- the answer for the next jump must not depend on it
+    cases = ("even-even", "odd-odd", "even-odd", "odd-even", "odd-odd|after an earlier jump", "odd-even|after an earlier jump")
     raises = {"ZeroDivisionError": lambda **a: True, "ValueError": lambda **a: True}
     raises_exact = False
 
@@ -314,11 +316,14 @@ class CopulaCouplingState(FunctionContract):
     def configure(self, interp):
         from pyvc import ctx
         interp.hooks["rpylib.distribution.univariate.uniform:Uniform.sample"] = lambda it, f, b: ctx.PATH.ghost["u"]
+        interp.hooks["rpylib.model.levycopulamodel:LevyCopulaModel.dimension_model"] = lambda it, f, b: 2
+        interp.hooks["rpylib.model.levycopulamodel:LevyCopulaModel.dimension"] = lambda it, f, b: 2
 
     def setup(self, vc, case):
         from pyvc.lib import Model
         from pyvc import ctx
         grid, ax, h, o = wf_grid(vc, d=2, quantified=False)      # explicit instances of the ordering below
+        case, _, history = case.partition("|")
         inc = vc.ints("increment", 2)
         u = vc.real("coupling_uniform")
         par = {"even": 0, "odd": 1}
@@ -339,8 +344,24 @@ class CopulaCouplingState(FunctionContract):
             return Sym(MMARG[k](as_real_term(lift(a[0])), as_real_term(lift(b[0]))), "r")
         model = vc.obj("rpylib.model.levycopulamodel:LevyCopulaModel", mass=Model(mass, "abstract-copula-mass"))
         cp = vc.obj(CL + "CouplingProcessLevyCopula", grid=grid, model=model, _uniform=vc.obj("rpylib.distribution.univariate.uniform:Uniform"))
+        sim = vc.new(CL + "CouplingLevyCopulaSimulation", cp)
+        if history:
+            inc0 = vc.ints("earlier_increment", 2)
+            ps0 = [o + i for i in inc0]
+            vc.assume(And(*[And(p >= 1, p <= ax.length - 2, p % 2 == w) for p, w in zip(ps0, (0, 1))]))
+            for p_ in ps0:
+                for j in (p_ - 1, p_):
+                    vc.assume(ax.raw(j) < ax.raw(j + 1))
+            u0 = vc.real("earlier_coupling_uniform")
+            vc.assume(And(u0 >= 0, u0 <= 1))
+            vc.ghost.update(u=u0)
+            from pyvc.sym import PyRaise as _PR
+            try:
+                vc.method(sim, "_CouplingLevyCopulaSimulation__coupling_state", tuple(inc0))
+            except _PR:
+                vc.assume(False)        # the earlier jump raised (degenerate cell): not the history this case is about
         vc.ghost.update(ax=ax, o=o, u=u, ps=ps, case=case)
-        return dict(self=vc.obj(CL + "CouplingLevyCopulaSimulation", coupling_process=cp), increment=tuple(inc))
+        return dict(self=sim, increment=tuple(inc))
 
     def ensures(self, result, self_=None, increment=None, **kw):
         from pyvc import ctx
@@ -390,9 +411,13 @@ class CopulaCouplingState(FunctionContract):
             def sample(self):
                 return self.u
         uni = U()
-        sim = CouplingLevyCopulaSimulation.__new__(CouplingLevyCopulaSimulation)
-        sim.coupling_process = SimpleNamespace(grid=grid, model=cm, _uniform=uni)
+        case, _, history = case.partition("|")
+        cm.dimension_model = lambda: 2
+        sim = CouplingLevyCopulaSimulation(SimpleNamespace(grid=grid, model=cm, _uniform=uni))
         f = getattr(sim, "_CouplingLevyCopulaSimulation__coupling_state")
+        if history:
+            uni.u = 0.4
+            f((2, 3))           # an earlier jump of mixed parity on the same simulation object
         want_par = [0 if w == "even" else 1 for w in case.split("-")]
         worst = None
         for inc in ((2, 3), (3, 2), (3, 3), (-2, 3), (3, -2), (-3, -3), (2, -3), (4, 1), (1, 4), (2, 2)):
